@@ -53,6 +53,7 @@ impl Range {
 
 
     pub const _ERROR_NO_EMPTY_LINE_BETWEEN_CONTENT_RANGE_HEADER_AND_BODY: &'static str = "no empty line between content range headers and body";
+    pub const _ERROR_PART_WITHOUT_CONTENT_TYPE_OR_CONTENT_RANGE: &'static str = "part of a multipart/byteranges body without Content-Type or Content-Range line";
     pub const _ERROR_UNABLE_TO_PARSE_CONTENT_RANGE: &'static str = "unable to parse content-range";
 
     pub const ERROR_START_IS_AFTER_END_CONTENT_RANGE: &'static str = "start is after end in content range";
@@ -752,6 +753,12 @@ impl Range {
 
         let content_range_is_parsed = content_range.size.len() != 0;
         let content_type_is_parsed = content_range.content_type.len() != 0;
+        if content_range_is_parsed != content_type_is_parsed {
+            return Err(Range::_ERROR_PART_WITHOUT_CONTENT_TYPE_OR_CONTENT_RANGE.to_string())
+        }
+        if !content_type_is_parsed && string.trim().len() != 0 && !string.contains(boundary.as_str()) {
+            return Err(Range::_ERROR_PART_WITHOUT_CONTENT_TYPE_OR_CONTENT_RANGE.to_string())
+        }
         if content_range_is_parsed && content_type_is_parsed {
             let mut body : Vec<u8> = vec![];
 
